@@ -65,6 +65,11 @@ func (f *FieldUpdater) Validate(m proto.Message) error {
 // Merge copies the values in src into dst based on the configured field masks.
 func (f *FieldUpdater) Merge(dst, src proto.Message) {
 	if f.writableFields != nil && len(f.writableFields.Paths) == 0 {
+		emptyUpdateMask := f.updateMask != nil && len(f.updateMask.GetPaths()) == 0 // => no changes at all
+		if f.resetMask != nil && !emptyUpdateMask {
+			// the reset mask is independent of the writable fields
+			fmutils.Prune(dst, f.resetMask.Paths)
+		}
 		return // nothing is writable
 	}
 
